@@ -13,7 +13,8 @@
               plaintext and then an error (every component parser reads exact lengths,
               so it fails without having published anything — C16);
     trailer – the whole plaintext is readable, the error (missing CRC/size trailer, or
-              missing end-of-stream bits) surfaces on the NEXT read of the MultiReader;
+              missing end-of-stream bits) surfaces on the NEXT read of the MultiReader — the
+              next component's first read, or getIndex's final drain for the last component;
     full    – complete.
   How a byte prefix of a real file maps to a `Cut` is decided by Go's compress/gzip
   (trusted base, DESIGN §4); the harness classifies each file with gzip itself.
